@@ -128,3 +128,71 @@ pub broadcast proof fn lemma_front_down(all: u64, i: u32, n: usize)
     let a = i as u64; let b = n as u64;
     assert(a < 64 && (b == 8 || b == 16) ==> ((((1u64 << a) >> b) & all) == 0 <==> (a < b || !((all >> sub(a, b)) & 1u64 == 1u64)))) by(bit_vector);
 }
+
+// ---- more of Bitboard's API (LEDGER bb_ops / bb_scan_step / bb_count_ones), so that code using it stays within reach
+impl vstd::std_specs::ops::BitOrSpecImpl<u64> for Bitboard {
+    open spec fn obeys_bitor_spec() -> bool { true }
+    open spec fn bitor_req(self, rhs: u64) -> bool { true }
+    open spec fn bitor_spec(self, rhs: u64) -> Bitboard { Bitboard(self.0 | rhs) }
+}
+impl core::ops::BitOr<u64> for Bitboard {
+    type Output = Bitboard;
+    #[verifier::external_body]
+    fn bitor(self, rhs: u64) -> (r: Bitboard) { unimplemented!() }
+}
+impl vstd::std_specs::ops::BitXorSpecImpl<Bitboard> for Bitboard {
+    open spec fn obeys_bitxor_spec() -> bool { true }
+    open spec fn bitxor_req(self, rhs: Bitboard) -> bool { true }
+    open spec fn bitxor_spec(self, rhs: Bitboard) -> Bitboard { Bitboard(self.0 ^ rhs.0) }
+}
+impl core::ops::BitXor<Bitboard> for Bitboard {
+    type Output = Bitboard;
+    #[verifier::external_body]
+    fn bitxor(self, rhs: Bitboard) -> (r: Bitboard) { unimplemented!() }
+}
+impl vstd::std_specs::ops::BitAndAssignSpecImpl<Bitboard> for Bitboard {
+    open spec fn obeys_bitand_assign_spec() -> bool { true }
+    open spec fn bitand_assign_req(&self, rhs: Bitboard) -> bool { true }
+    open spec fn bitand_assign_spec(&self, rhs: Bitboard) -> &Bitboard { &Bitboard(self.0 & rhs.0) }
+}
+impl core::ops::BitAndAssign<Bitboard> for Bitboard {
+    #[verifier::external_body]
+    fn bitand_assign(&mut self, rhs: Bitboard) { unimplemented!() }
+}
+impl vstd::std_specs::ops::BitOrAssignSpecImpl<u64> for Bitboard {
+    open spec fn obeys_bitor_assign_spec() -> bool { true }
+    open spec fn bitor_assign_req(&self, rhs: u64) -> bool { true }
+    open spec fn bitor_assign_spec(&self, rhs: u64) -> &Bitboard { &Bitboard(self.0 | rhs) }
+}
+impl core::ops::BitOrAssign<u64> for Bitboard {
+    #[verifier::external_body]
+    fn bitor_assign(&mut self, rhs: u64) { unimplemented!() }
+}
+impl vstd::std_specs::convert::FromSpecImpl<u64> for Bitboard {
+    open spec fn obeys_from_spec() -> bool { true }
+    open spec fn from_spec(v: u64) -> Bitboard { Bitboard(v) }
+}
+impl From<u64> for Bitboard {
+    #[verifier::external_body]
+    fn from(value: u64) -> (r: Bitboard) ensures r.0 == value { unimplemented!() }
+}
+impl vstd::std_specs::convert::FromSpecImpl<Square> for Bitboard {
+    open spec fn obeys_from_spec() -> bool { false }
+    open spec fn from_spec(s: Square) -> Bitboard { Bitboard(0) }
+}
+impl From<Square> for Bitboard {
+    /// `Self(1 << u8::from(square))` (LEDGER sq_index)
+    #[verifier::external_body]
+    fn from(square: Square) -> (r: Bitboard)
+        ensures square.rank < 8 && square.file < 8 ==> r.0 == 1u64 << ((square.rank * 8 + square.file) as u64),
+    { unimplemented!() }
+}
+pub uninterp spec fn popcount64(x: u64) -> u32;
+impl Bitboard {
+    #[verifier::external_body]
+    pub fn count_ones(self) -> (r: u32) ensures r == popcount64(self.0), r <= 64 { unimplemented!() }
+    #[verifier::external_body]
+    pub fn bitscan_forward(self) -> (r: u32) ensures r == vstd::std_specs::bits::u64_trailing_zeros(self.0) { unimplemented!() }
+    #[verifier::external_body]
+    pub fn bitscan_reverse(self) -> (r: u32) requires self.0 != 0, ensures r == 63 - vstd::std_specs::bits::u64_leading_zeros(self.0) { unimplemented!() }
+}
